@@ -1027,7 +1027,10 @@ def run_bpmlist(case, drv):
     for o, mm, s in zip(out, mo, (s1, s2)):
         for name in ("cur", "cur_nosort"):
             if o[name][0] == "ok":
-                agree = agree and mm[name] is not None and [F(mm[name][0]), F(mm[name][1])] == o[name][1]
+                # tied tempo points: `sorted()` is pandas' default (unstable) sort, the model's is stable - which of the tied
+                # rows is returned is not determined there; its time is
+                k = 2 if (dom or name == "cur_nosort") else 1
+                agree = agree and mm[name] is not None and [F(mm[name][0]), F(mm[name][1])][:k] == o[name][1][:k]
             else:
                 agree = agree and mm[name] is None and o[name][1] == "index"
         agree = agree and o["diff"][0] == "ok" and [F(x) for x in mm["diff"]] == o["diff"][1]
